@@ -51,6 +51,10 @@ class VersionConverter(object):
             msg = "Cannot parse provided file object '%s'." % self.filename
             raise ParserException(msg)
 
+        if tree.getroot().tag != "odML":
+            msg = "Expecting <odML> tag but got <%s> in '%s'." % (tree.getroot().tag, self.filename)
+            raise ParserException(msg)
+
         return tree
 
     def _parse_json(self):
